@@ -1,12 +1,20 @@
 /-
 C05 — the header parser hands over exactly the body, decoded as the header declares.
 
-`C05_exact_partial`: for every validator-parameter set, every cp1252 table, every file rendered by
+`C05_exact_full`: for every validator-parameter set, every cp1252 table, every file rendered by
 `Spec.HeaderLayout.renderFile` from a tolerated layout, valid fields and a body that starts with `<`, ends with
-`>` and is encodable in the declared character set, the model of `parse_header` returns exactly those fields and
-exactly that body — provided the layout guard holds (the defects of the pinned tree, see `C05_exact_full_false`)
-and, for v2, the XML declaration carries its three pseudo-attributes (the proved subset; the others are
-exercised by the correspondence only).
+`>` and is encodable in the declared character set, the model of `parse_header` (at /repo HEAD, i.e. with the
+three `fix:` commits to header.py) returns exactly those fields and exactly that body.  No layout guard remains.
+
+Side conditions that remain, and why:
+* `ValidFile`: the field values lie in the class validators' domains and are spelt in the character class of
+  their pattern group (implied by membership for the generated tables: `Gen.header_tokens_in_class`); numeric
+  fields are rendered as `str(n)` with `0 ≤ n < 1000`; without the COMPRESSION field the header object reads
+  `compression = "NONE"` (the constructor's default);
+* `tolerated`: at most seven leading blank lines (the code gives up after eight lines), blanks after colons are
+  spaces/tabs, all layout whitespace is ASCII whitespace, the XML declaration sits on one line (the code looks for
+  it on the first non-blank line only);
+* the body starts with `<`, ends with `>` (v1 bodies are `strip()`ped) and is encodable in the declared codec.
 -/
 import OfxProofs.Lemmas.HeaderV2
 
@@ -23,28 +31,17 @@ def declaredCodec (p1 : V1P) : FileSpec → PyM Name
   | .v1 _ f => codecV1 p1 f.h
   | .v2 _ _ => .ok .utf8
 
-/-- v2: the XML declaration has all three pseudo-attributes (any quote style) -/
-def xmlFull : FileSpec → Bool
-  | .v1 _ _ => true
-  | .v2 lay _ => lay.xmlVersion.isSome && lay.xmlEncoding.isSome && lay.xmlStandalone.isSome
-
-theorem C05_exact_partial (p1 : V1P) (p2 : V2P) (tbl : List (Option Nat)) (fs : FileSpec) (body : Str)
+theorem C05_exact_full (p1 : V1P) (p2 : V2P) (tbl : List (Option Nat)) (fs : FileSpec) (body : Str)
     (bb : Bytes) (cs : Name)
     (hvalid : ValidFile p1 p2 fs) (hcodec : declaredCodec p1 fs = .ok cs) (henc : encode tbl cs body = .ok bb)
-    (hb0 : body.head? = some '<') (hb1 : body.getLast? = some '>')
-    (htol : tolerated fs = true) (hg : guard fs bb = true) (hx : xmlFull fs = true) :
+    (hb0 : body.head? = some '<') (hb1 : body.getLast? = some '>') (htol : tolerated fs = true) :
     parseHeader p1 p2 tbl (renderFile fs bb) = .ok (hdrOf fs, body) := by
   cases fs with
-  | v1 lay f =>
-    simp only [Spec.HeaderLayout.guard, Bool.and_eq_true] at hg
-    exact parse_v1 p1 p2 tbl lay f body bb cs hvalid.1 hvalid.2 hcodec henc hb0 hb1 htol hg.1 hg.2
+  | v1 lay f => exact parse_v1 p1 p2 tbl lay f body bb cs hvalid.1 hvalid.2 hcodec henc hb0 hb1 htol
   | v2 lay h =>
-    simp only [Spec.HeaderLayout.guard, Bool.and_eq_true] at hg
-    simp only [xmlFull, Bool.and_eq_true, Option.isSome_iff_exists] at hx
-    obtain ⟨⟨⟨qv, h1⟩, ⟨qe, h2⟩⟩, ⟨qs, h3⟩⟩ := hx
     have : cs = .utf8 := by simp [declaredCodec] at hcodec; exact hcodec.symm
     subst this
-    exact parse_v2 p1 p2 tbl lay h body bb hvalid henc hb0 hb1 htol hg.1 hg.2 qv qe qs h1 h2 h3
+    exact parse_v2 p1 p2 tbl lay h body bb hvalid henc hb0 hb1 htol
 
 /-- `decode cs (encode cs body) = body` for each of the four codecs and every cp1252 table -/
 theorem C05_decode_encode (tbl : List (Option Nat)) (cs : Name) (body : Str) (bb : Bytes)
@@ -69,19 +66,13 @@ def pinnedV2P : V2P :=
     version := ["200".toList, "201".toList, "202".toList, "203".toList, "210".toList, "211".toList, "220".toList],
     security := ["NONE".toList, "TYPE1".toList], oldLen := some 36, newLen := some 36 }
 
-/-- the statement without the layout guard, for the pinned parameters -/
-def C05_exact_full : Prop :=
-  ∀ (tbl : List (Option Nat)) (fs : FileSpec) (body : Str) (bb : Bytes) (cs : Name),
-    ValidFile pinnedV1P pinnedV2P fs → declaredCodec pinnedV1P fs = .ok cs → encode tbl cs body = .ok bb →
-    body.head? = some '<' → body.getLast? = some '>' → tolerated fs = true →
-    parseHeader pinnedV1P pinnedV2P tbl (renderFile fs bb) = .ok (hdrOf fs, body)
-
 def wHdr : V1 :=
   { ofxheader := 100, data := "OFXSGML".toList, version := 102, security := "NONE".toList,
     encoding := "USASCII".toList, charset := "NONE".toList, compression := "NONE".toList,
     oldfileuid := "NONE".toList, newfileuid := "NONE".toList }
 
-/-- multi-line header (CRLF after every field), body glued to `NEWFILEUID:NONE` -/
+/-- multi-line header (CRLF after every field), body glued to `NEWFILEUID:NONE` — the layout that lost the
+    first body character before `fix: parse_header does not shift the body offset of multi-line v1 headers` -/
 def wGlued : FileSpec :=
   .v1 { leading := [], indent := [], ofxheader := {}, data := {}, version := {}, security := {}, encoding := {},
         charset := {}, compression := {}, oldfileuid := {}, newBlank := [], gap := [] }
@@ -92,10 +83,6 @@ def bodyOf (r : PyM (Hdr × Str)) : Option Str :=
   | .ok (_, b) => some b
   | .error _ => none
 
-theorem wGlued_loses_first_char :
-    bodyOf (parseHeader pinnedV1P pinnedV2P [] (renderFile wGlued (asciiBytes "<OFX></OFX>".toList))) =
-      some "OFX></OFX>".toList := by decide +kernel
-
 theorem wHdr_valid : ValidV1 pinnedV1P wHdr := by
   refine ⟨by decide, by decide, ⟨by decide, by decide, by decide⟩, by decide, ?_, ⟨by decide, by decide, by decide⟩,
     ⟨by decide, by decide, by decide⟩, ⟨by decide, by decide, by decide⟩, ⟨by decide, by decide, by decide⟩,
@@ -104,23 +91,23 @@ theorem wHdr_valid : ValidV1 pinnedV1P wHdr := by
   · intro n hn; cases hn; decide
   · intro n hn; cases hn; decide
 
-theorem C05_exact_full_false : ¬ C05_exact_full := by
-  intro h
-  have := h [] wGlued "<OFX></OFX>".toList (asciiBytes "<OFX></OFX>".toList) .utf8
+/-- the hypotheses of `C05_exact_full` are satisfiable by the formerly failing layouts: glued body … -/
+example : bodyOf (parseHeader pinnedV1P pinnedV2P [] (renderFile wGlued (asciiBytes "<OFX></OFX>".toList))) =
+    some "<OFX></OFX>".toList := by
+  have := C05_exact_full pinnedV1P pinnedV2P [] wGlued "<OFX></OFX>".toList (asciiBytes "<OFX></OFX>".toList) .utf8
     ⟨wHdr_valid, by intro h; cases h⟩ rfl (by rfl) rfl rfl (by decide +kernel)
-  have w := wGlued_loses_first_char
-  rw [this] at w
-  simp only [bodyOf, hdrOf] at w
-  exact absurd (Option.some.inj w) (by decide)
+  rw [this]; rfl
 
-/-- the guard of the partial theorem is satisfiable by a non-trivial layout: LF separators, a blank after one
-    colon, a leading blank line, an LF gap, a cp1252 body with a byte in 0x80..0x9F -/
-example : ∃ fs bb, tolerated fs = true ∧ Spec.HeaderLayout.guard fs bb = true ∧ xmlFull fs = true ∧
-    bodyOf (parseHeader pinnedV1P pinnedV2P [some 8364] (renderFile fs bb)) = some "<A>€</A>".toList :=
-  ⟨.v1 { leading := [" ".toList], indent := [], ofxheader := { sep := .lf }, data := { blank := [' '], sep := .lf },
-         version := { sep := .cr }, security := { sep := .none }, encoding := { sep := .lf }, charset := { sep := .lf },
-         compression := { sep := .lf }, oldfileuid := { sep := .lf }, newBlank := [], gap := ['\n', '\n', '\r', '\n'] }
-       { h := { wHdr with charset := "1252".toList }, withCompression := true },
-   [60, 65, 62, 0x80, 60, 47, 65, 62], by decide +kernel, by decide +kernel, rfl, by decide +kernel⟩
+/-- … one-line header followed directly by a non-ASCII (cp1252) body … -/
+example : bodyOf (parseHeader pinnedV1P pinnedV2P [some 8364]
+    (asciiBytes ("OFXHEADER:100DATA:OFXSGMLVERSION:102SECURITY:NONEENCODING:USASCIICHARSET:1252" ++
+      "COMPRESSION:NONEOLDFILEUID:NONENEWFILEUID:NONE").toList ++ [60, 65, 62, 0x80, 0xE9, 60, 47, 65, 62])) =
+    some "<A>€é</A>".toList := by decide +kernel
+
+/-- … and a v2 file with single quotes, an omitted pseudo-attribute and no line feed before a non-ASCII body -/
+example : bodyOf (parseHeader pinnedV1P pinnedV2P []
+    (asciiBytes ("<?xml version='1.0' standalone=\"no\"?><?OFX OFXHEADER='200' VERSION=\"220\" SECURITY='NONE' " ++
+      "OLDFILEUID='NONE' NEWFILEUID='NONE'?>").toList ++ [60, 65, 62, 0xC3, 0xA9, 60, 47, 65, 62])) =
+    some "<A>é</A>".toList := by decide +kernel
 
 end Ofx.Header
